@@ -181,68 +181,59 @@ def translate (c : Cfg) (s : St) : St × Bool :=
 def mkBReq (lg : Nat) (bid : Nat) (a : Acc) (paddr : Nat) : BReq :=
   ⟨bid, paddr + a.vaddr % (2 ^ lg), a.pl⟩
 
-/-- first transaction that is done and still has waiting requests -/
-def findDone : List Tx → Option Tx
+/-- Find the first transaction satisfying `p`, pop its first waiting request and drop the
+    transaction when none is left (`incomingReqs = incomingReqs[1:]` + `removeExistingTranslation`).
+    Returns the transaction as it was and the new list. Go identifies the transaction by pointer;
+    here it is identified by position (first match), which is the same element. -/
+def popFirst (p : Tx → Bool) : List Tx → Option (Tx × List Tx)
   | [] => none
-  | t :: ts => if t.done = true ∧ t.reqs ≠ [] then some t else findDone ts
+  | t :: ts =>
+    if p t then some (t, if t.reqs.tail = [] then ts else { t with reqs := t.reqs.tail } :: ts)
+    else (popFirst p ts).map fun x => (x.1, t :: x.2)
 
-def findTx (tid : Nat) : List Tx → Option Tx
-  | [] => none
-  | t :: ts => if t.treq.tid = tid then some t else findTx tid ts
-
-/-- replace the first transaction with this id -/
-def setTx (tid : Nat) (f : Tx → Tx) : List Tx → List Tx
+/-- record the reply in the first transaction satisfying `p` and mark it done -/
+def markFirst (p : Tx → Bool) (paddr : Nat) : List Tx → List Tx
   | [] => []
-  | t :: ts => if t.treq.tid = tid then f t :: ts else t :: setTx tid f ts
+  | t :: ts =>
+    if p t then { t with page := some paddr, done := true } :: ts else t :: markFirst p paddr ts
 
-/-- remove the first transaction with this id (`removeExistingTranslation`) -/
-def removeTx (tid : Nat) : List Tx → List Tx
-  | [] => []
-  | t :: ts => if t.treq.tid = tid then ts else t :: removeTx tid ts
+/-- drain condition of `parseTranslation`: `t.translationDone && len(t.incomingReqs) > 0` -/
+def isDrainable (t : Tx) : Bool := t.done && !t.reqs.isEmpty
 
-/-- pop the first waiting request of transaction `tid`; drop the transaction when none is left -/
-def popReq (tid : Nat) (txs : List Tx) : List Tx :=
-  match findTx tid txs with
-  | none => txs
-  | some t =>
-    if t.reqs.tail = [] then removeTx tid txs
-    else setTx tid (fun t => { t with reqs := t.reqs.tail }) txs
+/-- `findTranslationByReqID` condition -/
+def hasTid (tid : Nat) (t : Tx) : Bool := t.treq.tid == tid
 
-/-- the common tail of both paths of `parseTranslation`: send the first waiting request of `t`
-    (which is in `s.txs`, already marked done with page `p`). `none` = bottom port full. -/
-def forwardHead (c : Cfg) (s : St) (t : Tx) (a : Acc) (p : Nat) : Option St :=
-  if s.botOut.length < c.width then
-    let b := mkBReq c.lg s.nextB a p
-    some { s with botOut := s.botOut ++ [b], nextB := s.nextB + 1,
-                  infl := s.infl ++ [⟨a, b⟩], txs := popReq t.treq.tid s.txs,
-                  forwarded := ⟨a, b, s.epoch⟩ :: s.forwarded,
-                  ev := s!"F{b.bid}:{a.id}:{toHex b.paddr}:{plSig b.pl}" :: s.ev }
-  else none
+/-- successful bottom-port send of the translated request for `a` -/
+def emit (c : Cfg) (s : St) (a : Acc) (p : Nat) (txs' : List Tx) : St :=
+  let b := mkBReq c.lg s.nextB a p
+  { s with botOut := s.botOut ++ [b], nextB := s.nextB + 1,
+           infl := s.infl ++ [⟨a, b⟩], txs := txs',
+           forwarded := ⟨a, b, s.epoch⟩ :: s.forwarded,
+           ev := s!"F{b.bid}:{a.id}:{toHex b.paddr}:{plSig b.pl}" :: s.ev }
 
 def parseTranslation (c : Cfg) (s : St) : St × Bool :=
-  match findDone s.txs with
-  | some t =>
+  match popFirst isDrainable s.txs with
+  | some (t, txs') =>
+    -- first, drain waiting requests of completed transactions
     match t.reqs, t.page with
     | a :: _, some p =>
-      match forwardHead c s t a p with
-      | some s' => (s', true)
-      | none => (s, false)
-    | _, _ => (s, false)   -- unreachable: findDone gives reqs ≠ [], done ⇒ page set
+      if s.botOut.length < c.width then (emit c s a p txs', true) else (s, false)
+    | _, _ => (s, false)   -- unreachable: drainable gives reqs ≠ [], done ⇒ page set
   | none =>
     match s.trIn with
     | [] => (s, false)
     | r :: rest =>
-      match findTx r.rspTo s.txs with
-      | none => ({ s with trIn := rest, ev := s!"X{r.rspTo}" :: s.ev }, true)
-      | some t =>
-        -- the reply is recorded and the transaction marked done BEFORE the send that may fail
-        let s1 := { s with txs := setTx r.rspTo (fun t => { t with page := some r.paddr, done := true }) s.txs }
+      -- the reply is recorded and the transaction marked done BEFORE the send that may fail
+      match popFirst (hasTid r.rspTo) (markFirst (hasTid r.rspTo) r.paddr s.txs) with
+      | none => ({ s with trIn := rest, ev := s!"X{r.rspTo}" :: s.ev }, true)   -- unknown reply: dropped
+      | some (t, txs') =>
         match t.reqs with
-        | [] => (s1, false)   -- Go: index out of range; unreachable (transactions are never empty)
+        | [] => ({ s with txs := markFirst (hasTid r.rspTo) r.paddr s.txs }, false)   -- Go: index out of range; unreachable
         | a :: _ =>
-          match forwardHead c s1 t a r.paddr with
-          | some s' => ({ s' with trIn := rest, ev := s!"X{r.rspTo}" :: s'.ev }, true)
-          | none => (s1, false)
+          if s.botOut.length < c.width then
+            let s' := emit c s a r.paddr txs'
+            ({ s' with trIn := rest, ev := s!"X{r.rspTo}" :: s'.ev }, true)
+          else ({ s with txs := markFirst (hasTid r.rspTo) r.paddr s.txs }, false)
 
 /-- first in-flight entry with this bottom id, and the list without it
     (`isReqInBottomByID` + `findReqToBottomByID` + `removeReqToBottomByID`) -/
